@@ -306,6 +306,16 @@ def step? (cfg : Cfg) (s : State) : Act → Option State
   | .tick => some { s with tickPending := true }
   | .delay d => some { s with now := s.now + d }
 
+/-- Contract violations of the public calls: Load(key, nil), Load/Get2/Set(nil, …), a key of an unsupported type.
+    In the current code the assertion (`assert(key != nil)`, `assert(loader != nil)`, first statements of Load / Get2 /
+    Set) or the panic of GetShardingIndex fires BEFORE the shard lock is taken and before any shared access. -/
+inductive Contract
+  | nilLoader | nilKey | badKeyType
+  deriving DecidableEq, Repr
+
+/-- the panicking call as a transition: it changes nothing (the caller may recover and go on using the cache) -/
+def contractPanic (s : State) (_ : Contract) : State := s
+
 /-- total step: an action that is not enabled is a no-op -/
 def step (cfg : Cfg) (s : State) (a : Act) : State := (step? cfg s a).getD s
 
